@@ -1553,6 +1553,11 @@ impl CanonicalizeContext {
 				return None;
 			}
 
+			let parent_name = name(&get_parent(leaf)).to_string();
+			if ELEMENTS_WITH_FIXED_NUMBER_OF_CHILDREN.contains(&parent_name) || parent_name == "mmultiscripts" {
+				return None;		// the sibling is a separate argument (numerator/denominator, base/script, ...) -- can't remove it
+			}
+
 			let following_sibling = as_element(following_siblings[0]);
 			let following_sibling_name = name(&following_sibling);
 			if !(following_sibling_name == "mi" || following_sibling_name == "mo" || following_sibling_name == "mtext") {
